@@ -24,7 +24,8 @@ pub(crate) fn parse_ref<R: Read>(scanner: &mut Scanner<R>) -> Result<Ref, Error>
     }
 
     let mut dis: Option<String> = None;
-    if !scanner.is_eof && scanner.cur == b' ' && scanner.peek()? == b'"' {
+    // The space can be the last character of the input
+    if !scanner.is_eof && scanner.cur == b' ' && scanner.safe_peek() == Some(b'"') {
         scanner.read()?;
         dis = Some(parse_str(scanner)?.value);
     }
